@@ -41,12 +41,17 @@ func handleDelete(ctx *updateContext, del *regattapb.RequestOp_DeleteRange) (*re
 			if err := ctx.EnsureIndexed(); err != nil {
 				return nil, err
 			}
-			rng, err := rangeLookup(ctx.batch, &regattapb.RequestOp_Range{Key: del.Key, RangeEnd: del.RangeEnd, CountOnly: del.Count && !del.PrevKv})
+			// The whole range is going to be deleted, a range lookup answer cut by the message size limit
+			// would under-report the deleted pairs therefore all the chunks have to be consumed.
+			it, err := iterate(ctx.batch, &regattapb.RequestOp_Range{Key: del.Key, RangeEnd: del.RangeEnd, CountOnly: del.Count && !del.PrevKv})
 			if err != nil {
 				return nil, err
 			}
-			resp.Deleted = rng.Count
-			resp.PrevKvs = rng.Kvs
+			it(func(rng *regattapb.ResponseOp_Range) bool {
+				resp.Deleted += rng.Count
+				resp.PrevKvs = append(resp.PrevKvs, rng.Kvs...)
+				return true
+			})
 		}
 
 		var end []byte
